@@ -44,10 +44,13 @@ def run_history(bld, workdir, svcs, events, timeout_on=True, lines=None, **opts)
                  rules=opts.get("rules"), logs=opts.get("logs"))
     outs, ns, recs = [], [], [D.reset_record(svcs, timeout_on)]
     crashed = d.dead
+    tm = D.TagResolver(0, {})
     for k, e in enumerate(events):
         if crashed:
             break
+        e = tm.event(e)
         rec = d.step(e, line=(lines[k] if lines else None))
+        tm.observe(e, rec)
         recs.append(rec)
         if rec["e"] == "Crash":
             crashed = True
